@@ -13,7 +13,9 @@
    Client discipline is enforced dynamically instead of by a hypothesis: [IReg c] is enabled only
    while c has never been registered, [IDereg c] only once the registration of c returned and
    nobody started deregistering c (the owner's external synchronisation: a destructor runs after
-   the constructor returned, and once).  A thread whose instruction violates the discipline
+   the constructor returned, and once) -- except that a callback running inline inside its own
+   registration may destroy itself from inside that execution (the completion path of an
+   operation destroys the operation state, callback included).  A thread whose instruction violates the discipline
    simply waits for ever. *)
 From Coq Require Import List Bool Arith.
 Import ListNotations.
@@ -120,6 +122,11 @@ Definition regd (r : cbrec) : bool :=
   | _, _ => true
   end.
 
+(* a callback that ran inline (source_ = nullptr) may be destroyed by thread t: its constructor
+   has returned, or t is the thread still inside the inline execution *)
+Definition inl_ready (t : nat) (x : xstate) : bool :=
+  match x with XEnded => true | XRun t' => Nat.eqb t' t | XNone => false end.
+
 Definition is_notifier (s : st) (t : nat) : bool :=
   match notifier s with Some n => Nat.eqb n t | None => false end.
 
@@ -176,18 +183,23 @@ Definition step (t : nat) (s : st) : option (st * list ev) :=
           let r := cbs s c in
           match dst r with
           | DNone =>
-              match cst r, xst r with
-              | CInl, XEnded =>
-                  Some (set_thr (set_cb s c {| cst := cst r; xst := xst r; dst := DDone t;
-                                               completed := completed r; rdc := rdc r; removed := removed r |})
-                                t cont,
-                        [(t, EDeregBegin c); (t, EDeregRet c)])
-              | CLinked, _ | CPopped, _ =>
+              match cst r with
+              | CInl =>
+                  (* source_ was set to nullptr before the inline execute(): the destructor does not
+                     touch the source; allowed once the constructor returned or, before that, from
+                     inside the inline execution itself (same thread) *)
+                  if inl_ready t (xst r) then
+                    Some (set_thr (set_cb s c {| cst := cst r; xst := xst r; dst := DDone t;
+                                                 completed := completed r; rdc := rdc r; removed := removed r |})
+                                  t cont,
+                          [(t, EDeregBegin c); (t, EDeregRet c)])
+                  else None
+              | CLinked | CPopped =>
                   Some (set_thr (set_cb s c {| cst := cst r; xst := xst r; dst := DStarted t;
                                                completed := completed r; rdc := rdc r; removed := removed r |})
                                 t (FDeregLock c :: cont),
                         [(t, EDeregBegin c)])
-              | _, _ => None
+              | _ => None
               end
           | _ => None
           end
